@@ -55,7 +55,7 @@ theorem live_mem_holders {k : Key} (kt : KT k) (rid : Nat) (hh : k.hasRec rid) (
   mem_abs_holders (kt.hq rid hh hd) (by unfold Key.liveHolder; simpa using hd)
 
 /-- **re-arm**, working-state level -/
-theorem rearmE_rel {w : W} (h : WS w) (a : Engine.DB) (sc : Scal a w.db) (out1 : List Engine.Reply) (ho : w.out.map (·.r) = out1) (rid : Nat)
+theorem rearmE_rel {w : W} (h : WSt w) (a : Engine.DB) (sc : Scal a w.db) (out1 : List Engine.Reply) (ho : w.out.map (·.r) = out1) (rid : Nat)
     (hT : w.k.hasE rid = true) (hl : (w.k.getR rid).expried = false) (hdue : (w.k.getR rid).expT > w.db.now) :
     w.visitExpire true rid = some ((w.modR rid bumpE).addExpried rid) ∧
     Rel ((w.modR rid bumpE).addExpried rid) (seqUp a)
